@@ -12,11 +12,8 @@ parameter `ScmSem`; for git it is instantiated with `Model/GitSwitch.lean` by th
 Every change of the file system goes through `emit`/`emitSet`, so the micro-op list is
 complete by construction (`Props/C12.lean: fs_is_replay`).
 
-Defects of the code are modelled as they are:
- * `os.path.exists(<workspace>/../attic/x/sub)` is false once `<workspace>` itself was renamed
-   to the attic, so nested SCMs of an SCM in "." are not registered;
- * `bob clean --attic` looks only at the SCM an attic directory was registered with, not at
-   nested attic registrations below it.
+(Findings F-C12-1/2, fixed in the source: nested SCMs of an SCM in "." are registered in the attic,
+and `bob clean --attic` consults the nested registrations below a candidate.)
 -/
 namespace Checkout
 
@@ -244,8 +241,8 @@ def loopStep (sem : ScmSem σ κ) (atticEnabled : Bool) (new : List (NewEntry σ
   | some (q, n) =>
     -- an SCM above was moved to the attic: nested SCMs went with it
     let sub := p.drop q.length
-    -- os.path.exists goes through "<workspace>/../attic/..." and fails when the workspace is gone
-    let vis := !st.wsMissing && st.fs.any (fun x => x.1.under (.attic n sub))
+    -- `os.path.exists(atticPath)`: the nested directory went along with its parent
+    let vis := st.fs.any (fun x => x.1.under (.attic n sub))
     let st1 := if vis then emit (.regAttic n sub e.spec) { st with atticReg := setReg st.atticReg (n, sub) e.spec }
                else st
     .ok (dropOld e.dir st1, tr)
@@ -328,14 +325,22 @@ def cook (sem : ScmSem σ κ) (fl : Flags) (indet : Bool) (new : List (NewEntry 
 def atticPresent (st : St σ κ) (k : Nat × Comps) : Bool :=
   st.fs.any (fun x => x.1.under (.attic k.1 k.2))
 
-/-- the attic directories `bob clean --attic` (no --force) selects: registered, existing, and the
-SCM they were registered with is expendable.  Nested registrations are not consulted. -/
+/-- registration `k'` is `k` or lies below it -/
+def regBelow (k k' : Nat × Comps) : Bool := k'.1 == k.1 && isPrefix k.2 k'.2
+
+/-- `checkAtticSource`: the SCM the attic directory was registered with reports expendable -/
+def regExpendable (sem : ScmSem σ κ) (st : St σ κ) (e : (Nat × Comps) × Option σ) : Bool :=
+  match e.2 with
+  | some s => sem.expendable s (contentAt st.fs (.attic e.1.1 e.1.2))
+  | none => false
+
+/-- the attic directories `bob clean --attic` (no --force) selects: registered, existing, and every
+registered existing attic directory at or below it is expendable (nested SCMs went to the attic
+with their parent and are registered separately) -/
 def atticDeletable (sem : ScmSem σ κ) (st : St σ κ) : List (Nat × Comps) :=
-  (st.atticReg.filter (fun e =>
-    atticPresent st e.1 &&
-    (match e.2 with
-     | some s => sem.expendable s (contentAt st.fs (.attic e.1.1 e.1.2))
-     | none => false))).map (·.1)
+  ((st.atticReg.filter (fun e => atticPresent st e.1)).filter (fun e =>
+    (st.atticReg.filter (fun e' => atticPresent st e'.1)).all
+      (fun e' => !regBelow e.1 e'.1 || regExpendable sem st e'))).map (·.1)
 
 def cleanAttic (sem : ScmSem σ κ) (dryRun : Bool) (st : St σ κ) : St σ κ :=
   if dryRun then st else
